@@ -1427,6 +1427,33 @@ func c16ShrinkHist(c *core.Ctx, cs *c16HistCase, class string) *c16HistCase {
 			}
 		}
 	}
+	// drop the readers no operation refers to
+	used := map[int]bool{}
+	for _, op := range cur.Ops {
+		if _, i := c16ParseTok(op.Tok); i >= 0 {
+			used[i] = true
+		}
+	}
+	if len(used) < len(cur.Readers) && len(used) > 0 {
+		t := cur
+		t.Readers, t.Ops = nil, append([]c16Op(nil), cur.Ops...)
+		renum := map[int]int{}
+		for i, r := range cur.Readers {
+			if used[i] {
+				renum[i] = len(t.Readers)
+				t.Readers = append(t.Readers, r)
+			}
+		}
+		for x, op := range t.Ops {
+			if code, i := c16ParseTok(op.Tok); i >= 0 {
+				t.Ops[x].Tok = fmt.Sprintf("%c%x", code, renum[i])
+			}
+		}
+		budget++
+		if try(&t) {
+			cur = t
+		}
+	}
 	for i := range cur.Ops {
 		for _, n := range []int{1, 2, 3} {
 			if cur.Ops[i].N > n {
@@ -1752,6 +1779,7 @@ type c16BufCase struct {
 	Sort       string `json:"sort"`       // "", id-desc, s, d, u
 	Salt       int    `json:"salt"`
 	Batches    []int  `json:"batches"`
+	SwapAt     *int   `json:"swap_at,omitempty"` // rows k and k+1 are written in the opposite order
 	SortAfter  int    `json:"sort_after"`  // sort.Sort after this batch (-1: never)
 	ResetAfter int    `json:"reset_after"` // Reset after this batch (-1: never)
 	ReadBatch  int    `json:"read_batch"`
@@ -1777,6 +1805,9 @@ func c16ExecBuf(cs *c16BufCase) (o *c16Outcome) {
 	var opts []parquet.RowGroupOption
 	var less func(a, b *c16Rec) bool
 	switch cs.Sort {
+	case "id":
+		opts = append(opts, parquet.SortingRowGroupConfig(parquet.SortingColumns(parquet.Ascending("id"))))
+		less = func(a, b *c16Rec) bool { return a.ID < b.ID }
 	case "id-desc":
 		opts = append(opts, parquet.SortingRowGroupConfig(parquet.SortingColumns(parquet.Descending("id"))))
 		less = func(a, b *c16Rec) bool { return a.ID > b.ID }
@@ -1825,8 +1856,14 @@ func c16ExecBuf(cs *c16BufCase) (o *c16Outcome) {
 		step = bi
 		recs := make([]c16Rec, n)
 		for j := range recs {
-			recs[j] = mk(next + j)
-			order = append(order, next+j)
+			id := next + j
+			if cs.SwapAt != nil && id == *cs.SwapAt && j+1 < n {
+				id++
+			} else if cs.SwapAt != nil && id == *cs.SwapAt+1 && j > 0 {
+				id--
+			}
+			recs[j] = mk(id)
+			order = append(order, id)
 		}
 		next += n
 		var err error
@@ -2471,15 +2508,24 @@ func runC16(c *core.Ctx) {
 			c16RunBuf(c, &c16BufCase{Part: "buffer", Generic: g, Rows: rw, Sort: "id-desc", Salt: 3, Batches: []int{12, 3}, SortAfter: 0, ResetAfter: -1, ReadBatch: 5, ChurnSeed: 2}, "held/buffer")
 		}
 	}
+	// one adjacent pair out of order: only values that are empty in the first row of the pair keep the offsets ascending
+	for p := 0; p < 12; p++ {
+		p := p
+		c16RunBuf(c, &c16BufCase{Part: "buffer", Generic: p%2 == 0, Rows: p%4 < 2, Sort: "id", Salt: 3 + p/6, Batches: []int{14, 2}, SwapAt: &p, SortAfter: 0, ResetAfter: -1, ReadBatch: 64, ChurnSeed: int64(p)}, "held/buffer")
+	}
 	nb := c.N(80, 700)
 	for i := 0; i < nb; i++ {
-		cs := &c16BufCase{Part: "buffer", Generic: rng.Intn(2) == 0, Rows: rng.Intn(2) == 0, Sort: []string{"", "id-desc", "s", "d", "u"}[rng.Intn(5)],
+		cs := &c16BufCase{Part: "buffer", Generic: rng.Intn(2) == 0, Rows: rng.Intn(2) == 0, Sort: []string{"", "id-desc", "s", "d", "u", "id"}[rng.Intn(6)],
 			Salt: 1 + rng.Intn(500), SortAfter: -1, ResetAfter: -1, ReadBatch: c16BatchSizes[1+rng.Intn(5)], ChurnSeed: rng.Int63n(1 << 40), Workers: rng.Intn(2) * 2}
 		for k := 1 + rng.Intn(4); k > 0; k-- {
 			cs.Batches = append(cs.Batches, 1+rng.Intn(c.N(25, 60)))
 		}
 		if cs.Sort != "" {
 			cs.SortAfter = rng.Intn(len(cs.Batches))
+		}
+		if cs.Sort == "id" {
+			p := rng.Intn(cs.Batches[0])
+			cs.SwapAt = &p
 		}
 		if rng.Intn(3) == 0 {
 			cs.ResetAfter = rng.Intn(len(cs.Batches))
